@@ -176,13 +176,24 @@ def _iterable(obj):
     return True
 
 
+def _refuse_offset_unit(unit):
+    # powers and roots of readings on an offset scale are not meaningful
+    if unit.base_offset:
+        raise InvalidUnitOperation(
+            "Quantities with units of Fahrenheit or Celsius "
+            "cannot be raised to a power."
+        )
+
+
 @lru_cache(maxsize=128, typed=False)
 def _sqrt_unit(unit):
+    _refuse_offset_unit(unit)
     return 1, unit**0.5
 
 
 @lru_cache(maxsize=128, typed=False)
 def _cbrt_unit(unit):
+    _refuse_offset_unit(unit)
     return 1, unit ** (1.0 / 3.0)
 
 
@@ -245,6 +256,7 @@ def _difference_units(unit1, unit2=None):
 
 @lru_cache(maxsize=128, typed=False)
 def _power_unit(unit, power):
+    _refuse_offset_unit(unit)
     return 1, unit**power
 
 
@@ -264,6 +276,7 @@ def _divide_units(unit1, unit2):
 
 @lru_cache(maxsize=128, typed=False)
 def _reciprocal_unit(unit):
+    _refuse_offset_unit(unit)
     return 1, unit**-1
 
 
